@@ -1,11 +1,14 @@
 //! `verif` — the verification harness. See /verif/DESIGN.md.
 
 mod bersim;
+mod c10;
 mod c12;
 mod c13;
+mod c17;
 mod campaign;
 mod common;
 mod gf2;
+mod hist;
 
 use common::*;
 
@@ -23,6 +26,8 @@ fn main() {
     match args[0].as_str() {
         "C13" => c13::main(&parse_opts(&args[1..])),
         "C12" => c12::main(&parse_opts(&args[1..])),
+        "C10" => c10::main(&parse_opts(&args[1..])),
+        "C17" => c17::main(&parse_opts(&args[1..])),
         "replay" => {
             let path = args.get(1).unwrap_or_else(|| usage());
             let body: serde_json::Value = serde_json::from_str(
@@ -33,6 +38,11 @@ fn main() {
                 (Some("bersim"), Some("C13")) => {
                     campaign::replay_file(&body, path, &|c, o| bersim::oracle_c13(c, o))
                 }
+                (Some("bersim"), Some("C10")) => {
+                    campaign::replay_file(&body, path, &|c, o| c10::oracle_ber(c, o))
+                }
+                (Some("histsim-decode"), _) => c10::replay_history(&body, path),
+                (Some("histsim-matrix"), _) => c17::replay(&body, path),
                 (Some("bersim"), Some("C12")) => {
                     campaign::replay_file(&body, path, &|c, o| c12::oracle_c12(c, o))
                 }
